@@ -8,6 +8,7 @@ CONSTANTS
   ConnSets <- CS_small
   MaxSeq = 2
   MaxSteps = 100000
+  WithExpire = TRUE
   DumpHist = FALSE
 VIEW vw
 INVARIANTS
